@@ -10,6 +10,7 @@ Everything here is static: it reads the JSON description of /repo's type-checked
   * a product-state explorer used for path-sensitive rules (`explore`)
 """
 import json
+import os
 import re
 from collections import defaultdict, deque
 
@@ -723,6 +724,9 @@ class Facts:
         self.renames = {}
         if d.get("crate") == "rpm":
             d = self._canonicalise_renames(d)
+        self.inlined = {}
+        if d.get("crate") == "rpm" and not os.environ.get("VERIF_NO_INLINE"):
+            d = self._inline_new_helpers(d)
         self.path = path
         self.crate = d["crate"]
         self.consts = {}
@@ -766,6 +770,138 @@ class Facts:
             raise AnchorLost("expected exactly one body for %s, found %d: %s" %
                              (suffix or rx, len(r), [b.path for b in r][:6]))
         return r[0]
+
+    # ---- inlining of helpers the rules have never seen ---------------------------------------------
+    def _inline_new_helpers(self, d):
+        """A crate-local function that is not in rules/known_fns.txt was introduced after the rules were written -
+        typically a helper extracted from a function the rules anchor on.  Its body is spliced into every caller
+        (locals and blocks renumbered, arguments bound by assignments, `return` turned into an assignment of the
+        destination and a jump to the call's successor) so that every CFG / dataflow rule sees the code where it
+        used to be.  On a tree whose functions are all known nothing is changed."""
+        here = os.path.dirname(os.path.abspath(__file__))
+        try:
+            with open(os.path.join(here, "known_fns.txt")) as fh:
+                known = {l.strip() for l in fh if l.strip() and not l.startswith("#")}
+        except OSError:
+            return d
+        by_path = {}
+        for bd in d["bodies"]:
+            by_path.setdefault(bd["path"], bd)
+
+        def candidate(path):
+            bd = by_path.get(path)
+            return (bd is not None and bd["kind"] != "closure" and path not in known and not bd.get("derived")
+                    and len(bd["blocks"]) <= 200 and not bd.get("impl_trait"))
+        if not any(candidate(p) for p in by_path):
+            return d
+
+        def callee_of(term):
+            k = (term.get("func") or {}).get("k") or {}
+            fn = k.get("fn")
+            if not fn:
+                return None
+            r = fn.get("r")
+            if r and r.get("local") and r["path"] in by_path:
+                return r["path"]
+            if fn.get("local") and not fn.get("trait") and fn["path"] in by_path:
+                return fn["path"]
+            return None
+
+        done = {}
+        stack = []
+
+        def shift(x, loff, boff):
+            """deep copy of a callee JSON fragment with locals and block ids renumbered"""
+            if isinstance(x, dict):
+                if "l" in x and "p" in x and isinstance(x["l"], int):
+                    return {"l": x["l"] + loff, "p": [({"i": e["i"] + loff} if isinstance(e, dict) and "i" in e else (dict(e) if isinstance(e, dict) else e)) for e in x["p"]]}
+                return {k: shift(v, loff, boff) for k, v in x.items()}
+            if isinstance(x, list):
+                return [shift(v, loff, boff) for v in x]
+            return x
+
+        def shift_term(t, loff, boff, ret_to, dest, unwind_to):
+            k = t["t"]
+            if k == "return":
+                return None
+            n = shift(t, loff, boff)
+            if k == "goto":
+                n["target"] = t["target"] + boff
+            elif k == "switch":
+                n["targets"] = [[v, b + boff] for v, b in t["targets"]]
+                n["otherwise"] = t["otherwise"] + boff
+            elif k in ("call", "drop", "assert"):
+                if t.get("target") is not None:
+                    n["target"] = t["target"] + boff
+                n["unwind"] = (t["unwind"] + boff) if t.get("unwind") is not None else unwind_to
+            elif k == "resume":
+                if unwind_to is not None:
+                    n = {"t": "goto", "target": unwind_to, "line": t.get("line"), "col": t.get("col"), "exp": t.get("exp", [])}
+            return n
+
+        def process(path):
+            if path in done:
+                return done[path]
+            bd = by_path[path]
+            if path in stack:
+                return bd          # recursion: leave the call in place
+            stack.append(path)
+            blocks = [dict(b) for b in bd["blocks"]]
+            locals_ = list(bd["locals"])
+            inl = []
+            i = 0
+            budget = 40
+            while i < len(blocks):
+                t = blocks[i]["term"]
+                if t["t"] == "call" and budget > 0:
+                    cp = callee_of(t)
+                    if cp is not None and candidate(cp) and cp not in stack:
+                        cb = process(cp)
+                        if len(cb["blocks"]) <= 400 and len(t.get("args", [])) == cb["argc"]:
+                            budget -= 1
+                            loff, boff = len(locals_), len(blocks)
+                            locals_ += [dict(l) for l in cb["locals"]]
+                            line = t.get("line")
+                            stm = list(blocks[i]["stmts"])
+                            for ai, a in enumerate(t["args"]):
+                                stm.append({"k": "assign", "lhs": {"l": loff + 1 + ai, "p": []}, "rv": {"r": "use", "o": a}, "line": line, "exp": ["inlined-arg"]})
+                            blocks[i] = dict(blocks[i], stmts=stm, term={"t": "goto", "target": boff, "line": line, "col": t.get("col"), "exp": t.get("exp", [])})
+                            for cbk in cb["blocks"]:
+                                nt = shift_term(cbk["term"], loff, boff, t.get("target"), t["dest"], t.get("unwind"))
+                                ns = shift(cbk["stmts"], loff, boff)
+                                if nt is None:
+                                    ns = ns + [{"k": "assign", "lhs": t["dest"], "rv": {"r": "use", "o": {"m": {"l": loff, "p": []}}}, "line": line, "exp": ["inlined-ret"]}]
+                                    nt = ({"t": "goto", "target": t["target"], "line": line, "col": t.get("col"), "exp": []} if t.get("target") is not None
+                                          else {"t": "unreachable", "line": line, "col": t.get("col"), "exp": []})
+                                blocks.append({"stmts": ns, "term": nt, "cleanup": cbk.get("cleanup", False)})
+                            inl.append(cp)
+                            inl += cb.get("inlined", [])
+                            continue    # re-examine block i (now a goto) - moves on next iteration
+                i += 1
+            stack.pop()
+            if inl:
+                nb = dict(bd, blocks=blocks, locals=locals_, inlined=inl)
+            else:
+                nb = bd
+            done[path] = nb
+            return nb
+
+        out = []
+        seen_paths = set()
+        for bd in d["bodies"]:
+            if bd["path"] in seen_paths or bd["kind"] == "closure":
+                # closures: inline into them as well, but they are never inlined themselves
+                pass
+            seen_paths.add(bd["path"])
+            if by_path.get(bd["path"]) is bd:
+                nb = process(bd["path"])
+            else:
+                nb = bd
+            if nb.get("inlined"):
+                self.inlined[nb["path"]] = list(nb["inlined"])
+            out.append(nb)
+        d = dict(d, bodies=out)
+        return d
 
     def _canonicalise_renames(self, d):
         """Rules refer to functions by the names they had when the rules were written (known_fns.txt /
@@ -926,7 +1062,10 @@ class Facts:
                     # parent = path minus trailing ::{closure#n}
                     parent = re.sub(r"::\{closure#\d+\}$", "", b.path)
                     self._closures[parent].append(b)
-        return self._closures.get(body.path, [])
+        out = list(self._closures.get(body.path, []))
+        for ip in self.inlined.get(body.path, []):
+            out += self._closures.get(ip, [])     # closures created by code that was inlined into this body
+        return out
 
     # call graph --------------------------------------------------------------------------
     def callees(self, body):
